@@ -53,9 +53,13 @@ CHECKS = {
                 text="Stateless deviation-bounded exploration of the real Tuner.run for every StoppingCriterion field and pairs, "
                      "schedulers, n_workers, wait_trial_completion, (a)synchronous scheduling, failures vs max_failures and scheduler "
                      "exceptions injected at every call index; oracle: independent reading of the criterion at every loop end, no "
-                     "start afterwards, exit/drain right then, nothing alive after run(), cleanup calls, counters = ground truth.",
+                     "start afterwards, exit/drain right then, nothing alive after run(), cleanup calls, counters = ground truth. "
+                     "Simulator family: every subset of <=2 non-wall-clock criterion fields, alone and with a wall-clock limit that never / "
+                     "first holds, on the real simulator backend + SimulatorCallback (criterion rewritten onto simulated time), the user's "
+                     "criterion read independently at every loop end.",
                 note="Bounded: k<=1 (quick) / k<=2 (thorough), W<=3, 3 levels; wall-clock is a logical clock ticking per iteration; "
-                     "scripted workers (the property excludes the simulator for 'left running').",
+                     "scripted workers (the property excludes the simulator for 'left running'); simulator family: one execution per "
+                     "configuration (time keeper owned, no environment answers left), 3 schedulers, W<=2.",
                 technique="stateless model checking of the implementation (deviation-bounded enumeration of environment answers and fault-injection points)"),
     "C10": dict(engine="tunerx", category="model_checking", design_ref="§2 C10",
                 text="Stateless deviation-bounded exploration of the real Tuner.run + UserBlackboxBackend + SimulatorCallback over "
